@@ -232,11 +232,20 @@ Definition exh_maybe (o : option bterm) : bool :=
   | None => false
   end.
 
-(* the depth term of a repetition is only multiplied when it is zero, one or variant *)
+(* TokenVariance<Depth>::is_contiguous (after the repair): zero, one, or no upper bound and a lower bound of at most one *)
+Definition nvar_contiguous (v : nvar) : bool :=
+  match v with
+  | Inv n => (n =? 0) || (n =? 1)
+  | Var Unbounded => true
+  | Var (Bounded (BLower n)) => n <=? 1
+  | Var (Bounded _) => false
+  end.
+
+(* BoundaryTerm<Depth>::is_contiguous: the depth term of a repetition is only multiplied when every branch of it is contiguous *)
 Definition exh_rep_finalizes (t : bterm) : bool :=
   match t with
-  | BConj (_, Inv n) => (n =? 0) || (n =? 1)
-  | _ => true
+  | BConj s => nvar_contiguous (snd s)
+  | BDisj ss => forallb (fun s => nvar_contiguous (snd s)) ss
   end.
 
 Fixpoint exh_fold (t : tok) : res (option bterm) :=
